@@ -4,3 +4,6 @@ import RainModel.Model.Request
 import RainModel.Model.Cache
 import RainModel.Model.CachedPiece
 import RainModel.Model.WriteQueue
+import RainModel.Model.PieceDownloader
+import RainModel.Model.PieceWriter
+import RainModel.Model.WriteDone
